@@ -49,6 +49,14 @@ theorem C09_incidence {R : Type} [CommRing R] (nodes : List Nat) (edges : List E
   rw [binInc_eq nodes edges hN hE, entry_map_map _ _ _ i j hi hj]
   simp [ind]
 
+/-- Over the integers (the repaired code): the binary incidence entry is 1 exactly when the node belongs to the hyperedge. -/
+theorem C09_incidence_iff (nodes : List Nat) (edges : List Edge)
+    (hN : nodes.Nodup) (hE : ∀ e ∈ edges, ∀ x ∈ e, x ∈ nodes)
+    (i j : Nat) (hi : i < (classes nodes).length) (hj : j < edges.length) :
+    entry (binInc nodes edges : List (List Int)) i j = some 1 ↔ (classes nodes)[i] ∈ edges[j] := by
+  rw [C09_incidence nodes edges hN hE i j hi hj]
+  by_cases h : (classes nodes)[i] ∈ edges[j] <;> simp [h]
+
 /-- ... and the matrix has exactly `N` rows and `E` columns. -/
 theorem C09_incidence_shape {R : Type} [CommRing R] (nodes : List Nat) (edges : List Edge)
     (hN : nodes.Nodup) (hE : ∀ e ∈ edges, ∀ x ∈ e, x ∈ nodes)
@@ -102,6 +110,83 @@ theorem C09_dual {R : Type} [CommRing R] [CharZero R] [DecidableEq R] (nodes : L
   by_cases hex : ∃ x, x ∈ edges[a] ∧ x ∈ edges[b]
   · rw [if_neg (fun h0 => (hiff.1 h0) hex), if_pos hex]
   · rw [if_pos (hiff.2 hex), if_neg hex]
+
+/-- Over the integers: the dual adjacency entry is 1 exactly when the two hyperedges share a node. -/
+theorem C09_dual_iff (nodes : List Nat) (edges : List Edge)
+    (hN : nodes.Nodup) (hE : ∀ e ∈ edges, ∀ x ∈ e, x ∈ nodes)
+    (a b : Nat) (ha : a < edges.length) (hb : b < edges.length) :
+    entry (dual nodes edges : List (List Int)) a b = some 1 ↔ ∃ x, x ∈ edges[a] ∧ x ∈ edges[b] := by
+  rw [C09_dual nodes edges hN hE a b ha hb]
+  by_cases h : ∃ x, x ∈ edges[a] ∧ x ∈ edges[b]
+  · rw [if_pos h]; exact ⟨fun _ => h, fun _ => rfl⟩
+  · simp [h]
+
+/-- `hye_list_to_binary_incidence` called directly on index hyperedges: a given shape is refused exactly when it is
+smaller than the inferred one `(max index + 1, number of hyperedges)`; otherwise entry `(i, j)` is 1 exactly when
+`i` occurs in the `j`-th hyperedge (repeated nodes count once, columns beyond the list are empty). -/
+theorem C09_hye_list {R : Type} [CommRing R] (hyes : List (List Nat)) (shape : Option (Nat × Nat)) :
+    (∀ e ∈ hyes, ∀ x ∈ e, x < inferredN hyes)
+    ∧ (∀ N, (∀ e ∈ hyes, ∀ x ∈ e, x < N) → inferredN hyes ≤ N)
+    ∧ ((hyeBinInc hyes shape : Option (List (List R))) = none
+        ↔ ∃ n e, shape = some (n, e) ∧ (n < inferredN hyes ∨ e < hyes.length))
+    ∧ ∀ M : List (List R), hyeBinInc hyes shape = some M →
+        ∀ i j, i < (shape.map (·.1)).getD (inferredN hyes) → j < (shape.map (·.2)).getD hyes.length →
+          entry M i j = some (if ∃ e, hyes[j]? = some e ∧ i ∈ e then 1 else 0) := by
+  refine ⟨lt_inferredN hyes, inferredN_le hyes, ?_, ?_⟩
+  · cases shape with
+    | none => simp [hyeBinInc]
+    | some p =>
+      obtain ⟨n, e⟩ := p
+      simp only [hyeBinInc]
+      by_cases h : n < inferredN hyes ∨ e < hyes.length
+      · simp [h]
+      · simp only [if_neg h, reduceCtorEq, false_iff]
+        rintro ⟨n', e', heq, h'⟩
+        cases heq
+        exact h h'
+  · have key : ∀ (N E i j : Nat), i < N → j < E →
+        entry (binIncPad N E hyes : List (List R)) i j = some (if ∃ e, hyes[j]? = some e ∧ i ∈ e then 1 else 0) := by
+      intro N E i j hi hj
+      unfold binIncPad
+      rw [entry_map_map _ _ _ i j (by simpa using hi) (by simpa using hj)]
+      simp only [List.getElem_range]
+      congr 1
+      by_cases hj' : j < hyes.length
+      · by_cases hm : i ∈ hyes[j] <;> simp [ind, hj', hm]
+      · simp [ind, hj']
+    intro M hM i j hi hj
+    cases shape with
+    | none =>
+      simp only [hyeBinInc, Option.some.injEq] at hM
+      subst hM
+      exact key _ _ i j (by simpa using hi) (by simpa using hj)
+    | some p =>
+      obtain ⟨n, e⟩ := p
+      simp only [hyeBinInc] at hM
+      split at hM
+      · cases hM
+      · simp only [Option.some.injEq] at hM
+        subst hM
+        exact key _ _ i j (by simpa using hi) (by simpa using hj)
+
+/-- `binary_incidence_matrix` is this routine applied to the relabelled hyperedges with the shape
+`(num_nodes, num_edges)`, which is always accepted. -/
+theorem C09_incidence_call {R : Type} [CommRing R] (nodes : List Nat) (edges : List Edge)
+    (hN : nodes.Nodup) (hE : ∀ e ∈ edges, ∀ x ∈ e, x ∈ nodes) :
+    hyeBinInc (edges.map fun e => e.map (encode (classes nodes))) (some (nodes.length, edges.length))
+      = some (binInc nodes edges : List (List R)) := by
+  have hle : inferredN (edges.map fun e => e.map (encode (classes nodes))) ≤ nodes.length := by
+    apply inferredN_le
+    intro e' he' y hy
+    obtain ⟨e, he, rfl⟩ := List.mem_map.1 he'
+    obtain ⟨x, hx, rfl⟩ := List.mem_map.1 hy
+    rw [← classes_length nodes hN]
+    exact encode_lt _ x ((mem_classes x nodes).2 (hE e he x hx))
+  simp only [hyeBinInc, List.length_map]
+  rw [if_neg (by omega)]
+  congr 1
+  have := binIncPad_eq (R := R) nodes.length (edges.map fun e => e.map (encode (classes nodes)))
+  simpa [binInc] using this
 
 /-! ## per-order variants -/
 
@@ -205,7 +290,7 @@ theorem C09_laplacian_row_sums {R : Type} [CommRing R] (d : Nat) (nodes : List N
     (i : Nat) (hi : i < (classes nodes).length) :
     ((laplacian d nodes es)[i]?).map List.sum = some 0 := by
   rw [lap_row d nodes es hN hE i hi, Option.map_some, sum_zipWith_sub _ _ (by simp),
-    sum_gram_unweighted d nodes es hN hE hD hW, sum_map_mul_left', sum_range_ite _ i hi]
+    sum_gram_unweighted d nodes es hE hD hW, sum_map_mul_left', sum_range_ite _ i hi]
   simp
 
 /-! ## adjacency tensor of a uniform hypergraph on nodes `0..N-1` -/
@@ -301,6 +386,71 @@ theorem C09_temporal {R : Type} [CommRing R] (recs : List (Rec R)) (t : Nat) :
       obtain ⟨r, ⟨hr, ht⟩, rfl⟩ := he
       exact (hmem x).2 ⟨r, hr, ht, hx⟩
 
+/-- Per-order temporal matrices: the matrix at time `t` is the order-`d` adjacency matrix of the snapshot at `t`;
+for unweighted records entry `(i, j)`, `i ≠ j`, counts the records `(t, e)` with `e` of order `d` containing both nodes. -/
+theorem C09_temporal_by_order {R : Type} [CommRing R] (d : Nat) (recs : List (Rec R)) (t : Nat)
+    (hW : ∀ r ∈ recs, r.2.2 = 1) :
+    temporalAdjByOrder d recs t = adjByOrder d (snapshotNodes recs t) (snapshot recs t)
+    ∧ ∀ i j (hi : i < (classes (snapshotNodes recs t)).length) (hj : j < (classes (snapshotNodes recs t)).length),
+        entry (temporalAdjByOrder d recs t) i j
+          = some (if i = j then 0
+                  else ((recs.countP fun r => r.1 == t && (r.2.1.length == d + 1 &&
+                          (decide ((classes (snapshotNodes recs t))[i] ∈ r.2.1)
+                            && decide ((classes (snapshotNodes recs t))[j] ∈ r.2.1))) : Nat) : R)) := by
+  refine ⟨rfl, ?_⟩
+  intro i j hi hj
+  have hmem := (C09_temporal recs t).2.1
+  have hnd : (snapshotNodes recs t).Nodup := by unfold snapshotNodes; exact classes_nodup _
+  unfold temporalAdjByOrder
+  rw [C09_by_order d (snapshotNodes recs t) (snapshot recs t) hnd ?_ ?_ i j hi hj]
+  · congr 3
+    simp only [snapshot, List.countP_map, List.countP_filter]
+    congr 1
+    funext r
+    simp [Function.comp, Bool.and_comm]
+  · intro e he x hx
+    simp only [snapshot, List.mem_map, List.mem_filter, beq_iff_eq] at he
+    obtain ⟨r, ⟨hr, ht⟩, rfl⟩ := he
+    exact (hmem x).2 ⟨r, hr, ht, hx⟩
+  · intro e he
+    simp only [snapshot, List.mem_map, List.mem_filter, beq_iff_eq] at he
+    obtain ⟨r, ⟨hr, _⟩, rfl⟩ := he
+    exact hW r hr
+
+/-- Shapes: adjacency, per-order adjacency, degree matrix and Laplacian are `N × N`, the dual is `E × E`
+(entries outside are undefined). -/
+theorem C09_shapes {R : Type} [CommRing R] [DecidableEq R] (d : Nat) (nodes : List Nat) (es : List (Edge × R))
+    (hN : nodes.Nodup) (hE : ∀ e ∈ es, ∀ x ∈ e.1, x ∈ nodes) (i j : Nat) :
+    (nodes.length ≤ i ∨ nodes.length ≤ j →
+      entry (adj nodes (es.map (·.1)) : List (List R)) i j = none ∧ entry (adjByOrder d nodes es) i j = none
+      ∧ entry (laplacian d nodes es) i j = none)
+    ∧ (es.length ≤ i ∨ es.length ≤ j → entry (dual nodes (es.map (·.1)) : List (List R)) i j = none) := by
+  have hE' : ∀ e ∈ es.map (·.1), ∀ x ∈ e, x ∈ nodes := by
+    intro e he x hx
+    obtain ⟨e', he', rfl⟩ := List.mem_map.1 he
+    exact hE e' he' x hx
+  have hl := classes_length nodes hN
+  constructor
+  · intro h
+    rw [← hl] at h
+    refine ⟨?_, ?_, ?_⟩
+    · unfold adj
+      simp only
+      rw [binInc_eq nodes _ hN hE', mulT_rows, entry_setDiag0, entry_map_map_none _ _ _ i j h]; rfl
+    · unfold adjByOrder
+      simp only
+      rw [gramMatrix_eq d nodes es hN hE, entry_subDiag, entry_map_map_none _ _ _ i j h]; rfl
+    · unfold laplacian
+      simp only
+      rw [gramMatrix_eq d nodes es hN hE, entry_matSub, entry_map_map_none _ _ _ i j h]
+      cases entry (smul ((d + 1 : Nat) : R) (degMatrix d nodes es)) i j <;> rfl
+  · intro h
+    unfold dual
+    simp only
+    rw [binInc_eq nodes _ hN hE', transpose_rows, mulT_rows, entry_map_rows,
+      entry_map_map_none _ _ _ i j (by simpa using h)]
+    rfl
+
 /-! ## why D25 had to be repaired: the same model in arithmetic modulo 256 -/
 
 /-- In `uint8` arithmetic (`R = ZMod 256`, the unrepaired code) the adjacency claim fails: whenever two nodes share
@@ -380,3 +530,18 @@ example : times exR = [3, 7] ∧ snapshotNodes exR 3 = [10, 20, 30, 40]
     ∧ temporalAdj exR 3 = [[0, 1, 1, 0], [1, 0, 2, 0], [1, 2, 0, 1], [0, 0, 1, 0]] := by decide
 example : entry (temporalAdj exR 3) 1 2 = some 2 :=
   ((C09_temporal exR 3).2.2.2 1 2 (by decide) (by decide)).trans (by decide)
+example : temporalAdjByOrder 1 exR 3 = [[0, 0, 0, 0], [0, 0, 1, 0], [0, 1, 0, 1], [0, 0, 1, 0]] := by decide
+example : entry (temporalAdjByOrder 1 exR 3) 2 3 = some 1 :=
+  ((C09_temporal_by_order 1 exR 3 (by decide)).2 2 3 (by decide) (by decide)).trans (by decide)
+example : entry (adj (α := Int) exN (List.map (·.1) exW)) 5 0 = none :=
+  ((C09_shapes 2 exN exW (by decide) (by decide) 5 0).1 (by decide)).1
+example : (hyeBinInc (α := Int) [[0, 2, 2], [], [1]] none) = some [[1, 0, 0], [0, 0, 1], [1, 0, 0]]
+    ∧ (hyeBinInc (α := Int) [[0, 2, 2], [], [1]] (some (2, 3))) = none
+    ∧ (hyeBinInc (α := Int) [[0, 2, 2], [], [1]] (some (3, 4))) = some [[1, 0, 0, 0], [0, 0, 1, 0], [1, 0, 0, 0]] := by decide
+example : entry (binInc (α := Int) exN exE) 3 2 = some 1 := by
+  have h := C09_incidence_call (R := Int) exN exE (by decide) (by decide)
+  exact ((C09_hye_list _ _).2.2.2 _ h 3 2 (by decide) (by decide)).trans (by decide)
+example : entry (binInc (α := Int) exN exE) 3 2 = some 1 :=
+  (C09_incidence_iff exN exE (by decide) (by decide) 3 2 (by decide) (by decide)).2 (by decide)
+example : entry (dual (α := Int) exN exE) 1 3 = some 1 :=
+  (C09_dual_iff exN exE (by decide) (by decide) 1 3 (by decide) (by decide)).2 ⟨20, by decide, by decide⟩
